@@ -1,4 +1,5 @@
 import WS.Lemmas.LimitClaimed
+import WS.Lemmas.LimitHistory
 import WS.Lemmas.RoleGeneric
 import WS.Lemmas.ReaderRejects
 import WS.Lemmas.ReaderDecodes
@@ -186,6 +187,59 @@ theorem nextReader_over_limit_claimed (c : Conn) (hc : ReaderIdle c) (hi : Count
       c'.w.wire = c.w.wire ++ closeFrameBytes c.w (closePayload 1009 []) := by
   first | exact WS.LimitClaimed.nextReader_over_limit_claimed .. | (apply WS.LimitClaimed.nextReader_over_limit_claimed <;> assumption)
 
+
+open WS.Codec WS.ReaderDecodes WS.LimitHistory in
+/-- history independence at the message level (the first sentence of C06; regression statement for
+    finding F2): with a limit L > 0 in force, a message within the limit that the application
+    abandons after reads of any sizes — none, some, to the end or beyond — is followed by the next
+    message within the limit being read IN FULL, whatever the two fragmentations, interleaved control
+    frames, role, bufio size and transport chunking; the limit itself is unchanged -/
+theorem abandon_then_next_limited (c : Conn) (hc : ReaderIdle c) (t1 t2 : Nat) (ht1 : t1 = 1 ∨ t1 = 2) (ht2 : t2 = 1 ∨ t2 = 2)
+    (fs1 fs2 : List PFrame) (hs1 : MsgShape t1 fs1) (hs2 : MsgShape t2 fs2) (rest : Bytes)
+    (hp : c.r.buf.pending = encAll c.r.isServer fs1 ++ encAll c.r.isServer fs2 ++ rest)
+    (hend : c.r.buf.t.together = false ∨ rest ≠ [])
+    (hsz : (dataPayload fs1).length < 2 ^ 62 ∧ (dataPayload fs2).length < 2 ^ 62)
+    (hL : 0 < c.r.limit)
+    (h1 : ((dataPayload fs1).length : Int) ≤ c.r.limit) (h2 : ((dataPayload fs2).length : Int) ≤ c.r.limit)
+    (reads : List Nat) (k : Nat) (hk : 0 < k) :
+    ∃ c1 rid1, nextReader c = (.msg t1 rid1 false, c1) ∧
+      ∃ c3 rid2, nextReader (partialReads c1 rid1 reads) = (.msg t2 rid2 false, c3) ∧
+        ∃ c4, readAll c3 rid2 k = ((dataPayload fs2, none), c4) ∧ ReaderIdle c4 ∧ c4.r.buf.pending = rest ∧
+          c4.r.hlog = c.r.hlog ++ ctlEvents fs1 ++ ctlEvents fs2 ∧ c4.r.limit = c.r.limit := by
+  first | exact WS.LimitHistory.abandon_then_next_limited .. | (apply WS.LimitHistory.abandon_then_next_limited <;> assumption)
+
+open WS.Codec WS.ReaderDecodes WS.LimitHistory in
+/-- … for ANY NUMBER of earlier messages, each within the limit and each treated by the application in
+    any way (`readss`: one list of read sizes per message; `touchMsgs` is the plain loop "NextReader,
+    then Reads of these sizes, results discarded"): the next message of at most L payload bytes is read
+    in full. The running sum of an earlier message never counts against a later one. -/
+theorem limit_history_independent (c : Conn) (hc : ReaderIdle c) (hL : 0 < c.r.limit)
+    (msgs : List (Nat × List PFrame))
+    (hm : ∀ m ∈ msgs, (m.1 = 1 ∨ m.1 = 2) ∧ MsgShape m.1 m.2 ∧ (dataPayload m.2).length < 2 ^ 62 ∧
+            ((dataPayload m.2).length : Int) ≤ c.r.limit)
+    (readss : List (List Nat)) (hr : readss.length = msgs.length)
+    (t : Nat) (ht : t = 1 ∨ t = 2) (fs : List PFrame) (hs : MsgShape t fs)
+    (hsz : (dataPayload fs).length < 2 ^ 62) (hfit : ((dataPayload fs).length : Int) ≤ c.r.limit)
+    (rest : Bytes)
+    (hp : c.r.buf.pending = (msgs.map (fun m => encAll c.r.isServer m.2)).flatten ++ encAll c.r.isServer fs ++ rest)
+    (hend : c.r.buf.t.together = false ∨ rest ≠ []) (k : Nat) (hk : 0 < k) :
+    ∃ c1 rid, nextReader (touchMsgs readss c) = (.msg t rid false, c1) ∧
+      ∃ c2, readAll c1 rid k = ((dataPayload fs, none), c2) ∧ ReaderIdle c2 ∧ c2.r.buf.pending = rest ∧
+        c2.r.hlog = c.r.hlog ++ (msgs.map (fun m => ctlEvents m.2)).flatten ++ ctlEvents fs := by
+  first | exact WS.LimitHistory.limit_history_independent .. | (apply WS.LimitHistory.limit_history_independent <;> assumption)
+
+open WS.Codec WS.ReaderDecodes WS.Sequences WS.LimitHistory in
+/-- any number of messages, each within the limit (their total far above it), all read in full, in order -/
+theorem read_messages_limited (c : Conn) (hc : ReaderIdle c) (msgs : List (Nat × List PFrame))
+    (hm : ∀ m ∈ msgs, (m.1 = 1 ∨ m.1 = 2) ∧ MsgShape m.1 m.2 ∧ (dataPayload m.2).length < 2 ^ 62 ∧
+            ((dataPayload m.2).length : Int) ≤ c.r.limit)
+    (rest : Bytes)
+    (hp : c.r.buf.pending = (msgs.map (fun m => encAll c.r.isServer m.2)).flatten ++ rest)
+    (hend : c.r.buf.t.together = false ∨ rest ≠ []) (k : Nat) (hk : 0 < k) :
+    ∃ c', readMsgs k msgs.length c = (msgs.map (fun m => (m.1, dataPayload m.2)), c') ∧
+      ReaderIdle c' ∧ c'.r.buf.pending = rest ∧
+      c'.r.hlog = c.r.hlog ++ (msgs.map (fun m => ctlEvents m.2)).flatten := by
+  first | exact WS.LimitHistory.read_messages_limited .. | (apply WS.LimitHistory.read_messages_limited <;> assumption)
 
 /-! ### non-vacuity -/
 section NonVacuity
@@ -506,6 +560,65 @@ example : ∃ c', advanceFrame witTopFF = (.error .readLimit, c') ∧ c'.r.buf.p
   topbit_refused_claimed witTopFF ⟨rfl, rfl, ⟨by decide, by decide, by decide, (by intro e h; cases h)⟩, by decide⟩ ⟨rfl, rfl⟩
     0x81 0x7F [0xFF, 0, 0, 0, 0, 0, 0, 1] [0xAA, 0xBB]
     (by rw [← headerErrors_nil_iff]; decide) (by decide) rfl (by decide) (by decide)
+
+section History
+open WS.LimitHistory WS.Sequences
+
+/-- an idle client reader with read limit exactly 5 facing "Hello" three times (15 payload bytes in
+    all, each message in two fragments with a ping in between) and then a close frame header -/
+def witThree : Conn :=
+  { w := { newW false 4096 false false with keys := [1, 2, 3, 4] },
+    r := { isServer := false, nego := false, limit := 5,
+           buf := { size := 4096, buf := [],
+                    t := { chunks := [encAll false witMsg ++ (encAll false witMsg).take 3,
+                                      (encAll false witMsg).drop 3 ++ encAll false witMsg ++ [0x88, 0x00]] }, total := 44 } } }
+
+def witThree_idle : ReaderIdle witThree :=
+  ⟨rfl, rfl, rfl, ⟨by decide, by decide, by decide, (by intro e h; cases h)⟩, by decide, by decide,
+    (by intro id h; cases h), (by intro id h; cases h)⟩
+
+/-- non-vacuity of `limit_history_independent`: the first message is abandoned after one Read of 2
+    bytes, the second is opened and not read at all, the third is read in full with reads of 3 bytes —
+    although 15 bytes have gone by under a limit of 5 -/
+example : ∃ c1 rid, nextReader (touchMsgs [[2], []] witThree) = (.msg 1 rid false, c1) ∧
+      ∃ c2, readAll c1 rid 3 = (([0x48, 0x65, 0x6c, 0x6c, 0x6f], none), c2) ∧ ReaderIdle c2 ∧
+        c2.r.buf.pending = [0x88, 0x00] := by
+  obtain ⟨c1, rid, h1, c2, h2, h3, h4, _⟩ := limit_history_independent witThree witThree_idle (by decide)
+    [(1, witMsg), (1, witMsg)]
+    (by
+      intro m hm
+      simp only [List.mem_cons, List.mem_nil_iff, or_false] at hm
+      rcases hm with rfl | rfl <;> exact ⟨Or.inl rfl, witMsg_shape, by decide, by decide⟩)
+    [[2], []] rfl 1 (Or.inl rfl) witMsg witMsg_shape (by decide) (by decide) [0x88, 0x00] (by decide) (Or.inl rfl)
+    3 (by decide)
+  exact ⟨c1, rid, h1, c2, h2, h3, h4⟩
+
+/-- non-vacuity of `abandon_then_next_limited`: two messages, the first abandoned after a 1-byte Read -/
+example : ∃ c1 rid1, nextReader witThree = (.msg 1 rid1 false, c1) ∧
+      ∃ c3 rid2, nextReader (partialReads c1 rid1 [0]) = (.msg 1 rid2 false, c3) ∧
+        ∃ c4, readAll c3 rid2 4 = (([0x48, 0x65, 0x6c, 0x6c, 0x6f], none), c4) ∧ ReaderIdle c4 := by
+  obtain ⟨c1, rid1, h1, c3, rid2, h2, c4, h3, h4, _⟩ := abandon_then_next_limited witThree witThree_idle 1 1
+    (Or.inl rfl) (Or.inl rfl) witMsg witMsg witMsg_shape witMsg_shape (encAll false witMsg ++ [0x88, 0x00])
+    (by decide) (Or.inl rfl) ⟨by decide, by decide⟩ (by decide) (by decide) (by decide) [0] 4 (by decide)
+  exact ⟨c1, rid1, h1, c3, rid2, h2, c4, h3, h4⟩
+
+/-- non-vacuity of `read_messages_limited`: all three read in full under the limit of 5 -/
+example : ∃ c', readMsgs 3 3 witThree =
+      ([(1, [0x48, 0x65, 0x6c, 0x6c, 0x6f]), (1, [0x48, 0x65, 0x6c, 0x6c, 0x6f]), (1, [0x48, 0x65, 0x6c, 0x6c, 0x6f])], c') ∧
+      ReaderIdle c' ∧ c'.r.buf.pending = [0x88, 0x00] := by
+  obtain ⟨c', h1, h2, h3, _⟩ := read_messages_limited witThree witThree_idle [(1, witMsg), (1, witMsg), (1, witMsg)]
+    (by
+      intro m hm
+      simp only [List.mem_cons, List.mem_nil_iff, or_false] at hm
+      rcases hm with rfl | rfl | rfl <;> exact ⟨Or.inl rfl, witMsg_shape, by decide, by decide⟩)
+    [0x88, 0x00] (by decide) (Or.inl rfl) 3 (by decide)
+  exact ⟨c', h1, h2, h3⟩
+
+/-- the same, evaluated directly on the model (what the third NextReader reports and the running sum) -/
+example : (nextReader (touchMsgs [[2], []] witThree)).2.r.readErr = none ∧
+    (nextReader (touchMsgs [[2], []] witThree)).2.r.length = 3 := by decide +kernel
+
+end History
 
 end NonVacuity
 
